@@ -1,4 +1,5 @@
 import QM.ConvLemmas
+import QM.ConvNoUK
 import QM.Conform
 /-! # C16 — undocumented keys are rejected, documented keys are accepted
 
@@ -82,5 +83,49 @@ theorem C16_names_first (es : Entries) (sup : List Str) (k : Str) :
 theorem C16_clean_passes (u : SUnit) (sec : Str) (sup : List Str) (h : ∀ kv ∈ entriesOf u sec, kv.1 ∈ sup) :
     checkUnknown u sec sup = .ok () :=
   checkUnknown_ok u sec sup ((firstUnknown_none_iff _ _).mpr h)
+
+
+/-! ### acceptance: documented keys are never rejected as unknown
+
+`NoUK r` (QM/ConvNoUK.lean): the computation `r` cannot end in an `unknownKey` error.  When the unit's own section and
+[Quadlet] hold documented keys only, no step of any converter model raises one — the key check is the only source of
+that error (every handler, including the monadic folds over Volume=, Network=, Mount= and ExposeHostPort=, is shown to
+raise other errors only). Other errors (a missing image, a bad port …) remain possible and are not this property. -/
+
+theorem C16_image_accepts (E : Env) (path : Str) (u : SUnit)
+    (h0 : firstUnknown (entriesOf u (s "Image")) supportedImage = none)
+    (h1 : firstUnknown (entriesOf u (s "Quadlet")) supportedQuadlet = none) :
+    ∀ k, fromImage E path u ≠ .error (.unknownKey k) :=
+  fun k h => by have := fromImage_noUK E path u h0 h1 _ h; simp [isUK] at this
+theorem C16_volume_accepts (E : Env) (path : Str) (u : SUnit)
+    (h0 : firstUnknown (entriesOf u (s "Volume")) supportedVolume = none)
+    (h1 : firstUnknown (entriesOf u (s "Quadlet")) supportedQuadlet = none) :
+    ∀ k, fromVolume E path u ≠ .error (.unknownKey k) :=
+  fun k h => by have := fromVolume_noUK E path u h0 h1 _ h; simp [isUK] at this
+theorem C16_network_accepts (E : Env) (path : Str) (u : SUnit)
+    (h0 : firstUnknown (entriesOf u (s "Network")) supportedNetwork = none)
+    (h1 : firstUnknown (entriesOf u (s "Quadlet")) supportedQuadlet = none) :
+    ∀ k, fromNetwork E path u ≠ .error (.unknownKey k) :=
+  fun k h => by have := fromNetwork_noUK E path u h0 h1 _ h; simp [isUK] at this
+theorem C16_pod_accepts (E : Env) (path : Str) (u : SUnit) (cts : List Str)
+    (h0 : firstUnknown (entriesOf u (s "Pod")) supportedPod = none)
+    (h1 : firstUnknown (entriesOf u (s "Quadlet")) supportedQuadlet = none) :
+    ∀ k, fromPod E path u cts ≠ .error (.unknownKey k) :=
+  fun k h => by have := fromPod_noUK E path u cts h0 h1 _ h; simp [isUK] at this
+theorem C16_kube_accepts (E : Env) (path : Str) (u : SUnit)
+    (h0 : firstUnknown (entriesOf u (s "Kube")) supportedKube = none)
+    (h1 : firstUnknown (entriesOf u (s "Quadlet")) supportedQuadlet = none) :
+    ∀ k, fromKube E path u ≠ .error (.unknownKey k) :=
+  fun k h => by have := fromKube_noUK E path u h0 h1 _ h; simp [isUK] at this
+theorem C16_build_accepts (E : Env) (path : Str) (u : SUnit)
+    (h0 : firstUnknown (entriesOf u (s "Build")) supportedBuild = none)
+    (h1 : firstUnknown (entriesOf u (s "Quadlet")) supportedQuadlet = none) :
+    ∀ k, fromBuild E path u ≠ .error (.unknownKey k) :=
+  fun k h => by have := fromBuild_noUK E path u h0 h1 _ h; simp [isUK] at this
+theorem C16_container_accepts (E : Env) (path : Str) (u : SUnit)
+    (h0 : firstUnknown (entriesOf u (s "Container")) supportedContainer = none)
+    (h1 : firstUnknown (entriesOf u (s "Quadlet")) supportedQuadlet = none) :
+    ∀ k, fromContainer E path u ≠ some (.error (.unknownKey k)) :=
+  fun k h => by have := fromContainer_noUK E path u _ h0 h1 h _ rfl; simp [isUK] at this
 
 end Cv
